@@ -47,11 +47,14 @@ def gen_cases(ctx):
                           "steps": 2, "fullrank": True})
     for _ in range(ctx.n(10, 150)):
         for v in ("tdvp1", "tdvp2"):
-            kind = rng.choice([None, None, "spider", "chain"])
+            kind = rng.choice([None, None, "spider", "chain", "twig", "twig", "bush"])
             n = rng.choice([3, 4, 5, 5, 6, 7]) if kind else rng.choice([2, 3, 4, 5, 6])
+            if kind == "twig":
+                n = rng.choice([6, 7])
             cases.append({"kind": "step", "variant": v, "par": gen.random_parent_array(rng, n, kind),
                           "seed": rng.randrange(10 ** 9), "steps": rng.choice([2, 3]),
-                          "fullrank": rng.random() < 0.5})
+                          "fullrank": rng.random() < 0.5,
+                          "pregauge": rng.choice([None, None, "KEEP", "REDUCED"])})
     for _ in range(ctx.n(6, 60)):
         for v in ("tdvp1", "tdvp2"):
             cases.append({"kind": "saturated", "variant": v, "seed": rng.randrange(10 ** 9),
@@ -130,6 +133,10 @@ def _problem(case):
         if not ok:
             ttns, info = gen.random_ttns(rng, nprng, par, phys=(2, 3), bonds=(1,))
     names = info["names"]
+    if case.get("pregauge"):
+        # the caller hands over a state that is already canonical somewhere (KEEP keeps padded bonds)
+        from pytreenet.util.tensor_splitting import SplitMode
+        ttns.canonical_form(rng.choice(sorted(ttns.nodes)), mode=getattr(SplitMode, case["pregauge"]))
     phys = {i: info["open"][i][0] for i in range(n)}
     terms = []
     for _ in range(rng.randint(1, 3)):
